@@ -39,7 +39,6 @@ import (
 	"verif/internal/opdrv"
 	"verif/internal/sched"
 	"verif/internal/vclient"
-	"verif/internal/vstore"
 )
 
 type cfgVariant struct {
@@ -398,7 +397,8 @@ func cfgCase(run *ev.Run, i int) {
 	}
 
 	// ---- the same request parked at each of its yield points while another client is served ----
-	if !c.Keep || !cfgInterleavable[c.Surface] {
+	// (every second round of the surface x shape grid: each forced preemption costs two full requests)
+	if !c.Keep || !cfgInterleavable[c.Surface] || (i/(4*len(cfgSurfaces)))%2 != 0 {
 		return
 	}
 	cfgInterleave(run, i, w, c, r, trace, accepted)
@@ -537,5 +537,3 @@ func cfgInterleave(run *ev.Run, i int, w *opdrv.World, c *epCase, r *rand.Rand, 
 		}
 	}
 }
-
-var _ = vstore.Full
